@@ -328,3 +328,33 @@ Proof.
     rewrite Hf, Hs. unfold store_result.
     rewrite (@save_groups_indices unit). f_equal. lia.
 Qed.
+
+(* ------------------------------------- SearchDefBase.constraints (dict) *)
+Lemma dedupe_by_map {A B} (f : A -> B) (kb : B -> Z) : forall l seen,
+  dedupe_by kb seen (map f l) = map f (dedupe_by (fun a => kb (f a)) seen l).
+Proof.
+  induction l as [|a l IH]; intros seen; simpl; [reflexivity|].
+  destruct (memZ (kb (f a)) seen); simpl; rewrite IH; reflexivity.
+Qed.
+
+(* the keys of {c.id: c for c in given} = the model's constraints_of *)
+Lemma constraints_dict_keys (items : (Z -> Z) -> list Z -> list (Z * Z)) :
+  (forall cid given, items cid given = map (fun c => (cid c, c)) given) ->
+  forall cs, dict_keys (items (fun c => c) cs) = constraints_of cs.
+Proof.
+  intros H cs. unfold dict_keys, constraints_of. rewrite H.
+  rewrite (dedupe_by_map (fun c : Z => (c, c)) fst). rewrite map_map.
+  simpl. apply map_id.
+Qed.
+
+Lemma patterns_as_model {P C} (pats : (P -> C) -> bool -> P -> list P -> list C) :
+  (forall compile is_list single many,
+     pats compile is_list single many =
+     if negb is_list then [compile single] else map compile many) ->
+  forall compile is_list single many,
+    pats compile is_list single many =
+    map compile (pattern_arg_list is_list single many).
+Proof.
+  intros H compile is_list single many. rewrite H.
+  destruct is_list; reflexivity.
+Qed.
